@@ -140,7 +140,7 @@ def run(ctx):
     ctx.analysed['bodies'].add(N.path)
     nouts, _I = sem.paths(f, N, result_combinators=True)
     def is_recv(t):
-        return t[0] == 'call' and t[1].endswith('UnboundedReceiver::<T>::recv') and len(t[2]) == 1 and sem.has(t[2][0], lambda x: x == ('field', SELF, 'rx'))
+        return t[0] == 'call' and t[1].startswith('tokio::sync::mpsc::') and t[1].endswith('Receiver::<T>::recv') and len(t[2]) == 1 and sem.has(t[2][0], lambda x: x == ('field', SELF, 'rx'))
     check_timed_wait(ctx, 'O2', N, nouts, is_recv, lambda v: v == ('field', SELF, 'timeout'),
                      lambda a, o: a == ('field', ('field', SELF, 'ldap'), 'last_id'), 'the ID of the stream\'s own search (its handle\'s last_id)')
     # the per-item duration persists: nothing in the per-item call writes or takes the stream's timeout
